@@ -103,3 +103,20 @@ func HarnessId62ParseArbitrary() {
 		verifReach("not-classified-as-faulty")
 	}
 }
+
+// H20c: hash-derived identifiers are a pure function of namespace and inputs —
+// also when NewHash is called from two goroutines at once: no shared state may
+// be touched without synchronisation, and each result equals the result of the
+// same call made alone.
+func HarnessNewHashConcurrent() {
+	in1 := []string{"a", "bb"}[ndChoice("first", 2)]
+	in2 := []string{"a", "bb"}[ndChoice("second", 2)]
+	var r1, r2 UUID
+	verifSpawn(func() { r1 = NewHash("ns", in1) })
+	verifSpawn(func() { r2 = NewHash("ns", in2, "x") })
+	verifJoin()
+	verifAssert(r1 == NewHash("ns", in1), "first-hash-as-alone")
+	verifAssert(r2 == NewHash("ns", in2, "x"), "second-hash-as-alone")
+	verifAssert(NewHash("ns", in1) == NewHash("ns", in1), "same-inputs-same-identifier")
+	verifAssert(NewHash("ns", "a") != NewHash("ns", "bb"), "different-inputs-differ")
+}
